@@ -133,11 +133,42 @@ def check(run):
                     if n.get("k") == "MCall" and (n.get("callee") or {}).get("cls") == q and callee_name(n) not in ("operator=",):
                         rebuilds = True   # helper such as rebuild_indexes()
                 ok = (not copies) and rebuilds
+                if ok and op == "copyAssign" and not delegates:
+                    # the destination may already hold entries: they must be removed from the borrowing member, in the
+                    # assignment itself or in a helper of the class it calls
+                    fam = {fn["key"]: fn}
+                    work = [fn]
+                    while work:
+                        g_ = work.pop()
+                        for c_ in ir.calls_in(g_["body"]):
+                            cal = c_.get("callee") or {}
+                            if cal.get("cls") == q:
+                                for h_ in facts.fns(cal.get("qn")):
+                                    if h_.get("cls") == q and h_["sig"] == cal.get("sig") and h_["key"] not in fam:
+                                        fam[h_["key"]] = h_
+                                        work.append(h_)
+                    cleared = False
+                    for g_ in fam.values():
+                        for c_ in ir.calls_in(g_["body"]):
+                            if c_.get("k") == "MCall" and callee_name(c_) in ("clear", "swap") and path(c_.get("recv")) == ("this", f["n"]):
+                                cleared = True
+                        for lp_, rhs_, node_ in consumption.assignment_targets(ir.stmts(g_["body"])):
+                            if lp_ == ("this", f["n"]):
+                                cleared = True
+                    if not cleared:
+                        run.ob("R19.1", "%s:%s:stale-entries" % (key, op), False, fn, fn["line"],
+                               "copy assignment re-indexes the copied items into %s without emptying it first: entries of the destination's previous content "
+                               "survive and keep referring to elements that the assignment overwrote or destroyed (stale or out-of-range indices are returned)" % f["n"])
+                    else:
+                        run.ob("R19.1", "%s:%s:stale-entries" % (key, op), True, fn, fn["line"], "%s is emptied before it is rebuilt" % f["n"])
                 run.ob("R19.1", "%s:%s" % (key, op), ok, fn, fn["line"],
                        "user-provided %s re-derives %s from the object's own storage" % (what, f["n"]) if ok else
                        ("user-provided %s copies %s from the source object" % (what, f["n"]) if copies else
                         "user-provided %s never rebuilds %s" % (what, f["n"])))
-    run.floor("R19.1", 6, "owners of borrowing members")
+    if n_b == 0:
+        run.ob("R19.1", "no-borrowing-members-in-closure", True, None, 0,
+               "no class in the member closure of the block classes stores a reference-holding type: member-wise copies are independent", nontrivial=False)
+    run.floor("R19.1", 1, "owners of borrowing members (or the statement that there are none)")
     run.info["records_in_closure"] = len(clos)
     run.info["borrowing_types"] = sorted(short(b) for b in borrow if b in clos)
 
